@@ -35,3 +35,7 @@ pub assume_specification [char::is_uppercase] (c: char) -> (r: bool)
 // (char::is_whitespace already has a specification in vstd)
 pub assume_specification [char::is_control] (c: char) -> (r: bool)
     ensures r == ((c as u32) <= 0x1F || (0x7F <= (c as u32) && (c as u32) <= 0x9F));
+// slice / Vec membership test (for element types whose `==` is the specification equality)
+use vstd::std_specs::cmp::PartialEqSpec as _;
+pub assume_specification<T: PartialEq> [<[T]>::contains] (s: &[T], x: &T) -> (r: bool)
+    ensures T::obeys_eq_spec() ==> r == (exists|i: int| 0 <= i < s@.len() && (#[trigger] s@[i]).eq_spec(x));
